@@ -243,11 +243,88 @@ def gen_sadump(rng, work, tag):
             "desc": "sadump %d pages of %d" % (n, span)}
 
 
-GENS = {"diskdump": gen_diskdump, "elf": gen_elf, "lkcd": gen_lkcd, "sadump": gen_sadump}
+def hexlines(b):
+    return [" ".join("%02x" % x for x in b[i:i + 32]) for i in range(0, len(b), 32)]
+
+
+def gen_diskdump_pt(rng, work, tag):
+    """x86_64 Linux diskdump with a real 4-level page table in the dumped memory
+    (root found through VMCOREINFO SYMBOL(init_level4_pgt) and phys_base = 0), so
+    that KVADDR reads in the vmalloc range walk the tables through addrxlat's
+    4-slot read cache and pin page-cache entries, while KVADDR reads in the direct
+    mapping are linear.  Several PTE pages: one walk sequence touches more than 4
+    distinct table pages."""
+    import struct
+    V = 0xffffc90000000000
+    pages = {}                        # pfn -> bytes
+
+    def table(entries):
+        b = bytearray(PAGE)
+        for i, v in entries.items():
+            b[i * 8:i * 8 + 8] = struct.pack("<Q", v)
+        return bytes(b)
+
+    # pfn 2 PGD, 3 PUD, 4..5 PMD, 6.. PTE pages; data frames from 0x20
+    npmd = rng.choice([1, 2])
+    pte_pfn = 6
+    data_pfn = 0x20
+    vaddrs = []
+    pud = {}
+    methods = {}
+    for pi in range(npmd):
+        pmd = {}
+        for mi in range(rng.choice([1, 2, 3])):
+            pte = {}
+            for ti in sorted(rng.sample(range(512), rng.choice([1, 2, 4]))):
+                present = rng.random() < 0.9
+                pte[ti] = (data_pfn << 12) | (0x63 if present else 0x62)
+                va = V + (pi << 30) + (mi << 21) + (ti << 12)
+                if rng.random() < 0.85:
+                    pages[data_pfn] = None          # filled below
+                vaddrs.append(va)
+                data_pfn += rng.choice([1, 1, 2])
+            pages[pte_pfn] = table(pte)
+            pmd[mi] = (pte_pfn << 12) | 0x67
+            pte_pfn += 1
+        pages[4 + pi] = table(pmd)
+        pud[pi] = ((4 + pi) << 12) | 0x67
+    pages[3] = table(pud)
+    pages[2] = table({(V >> 39) & 511: (3 << 12) | 0x67})
+    for p in (0, 1):
+        pages[p] = None
+    lines = []
+    kinds = {}
+    for pfn in sorted(pages):
+        if pages[pfn] is None:
+            m = rng.choice(["raw", "zlib", "snappy", "zstd"])
+            lines.append("@0x%x %s" % (pfn * PAGE, m))
+            lines += page_lines(rng, pfn)
+        else:
+            # a table page may be excluded from the dump (walk fails, or reads zeroes with zero_excluded)
+            m = "exclude" if (pfn >= 6 and rng.random() < 0.1) else rng.choice(["raw", "zlib"])
+            lines.append("@0x%x %s" % (pfn * PAGE, m))
+            lines += hexlines(pages[pfn])
+        kinds[pfn] = m
+    data = os.path.join(work, tag + ".data")
+    open(data, "w").write("\n".join(lines) + "\n")
+    vmci = os.path.join(work, tag + ".vmci")
+    open(vmci, "w").write("OSRELEASE=3.4.5-test\nPAGESIZE=4096\nSYMBOL(init_level4_pgt)=ffffffff80002000\n"
+                          "SYMBOL(_stext)=ffffffff80000000\n")
+    npages = data_pfn + 2
+    f = os.path.join(work, tag + ".dump")
+    tool("mkdiskdump", f, "version = 3\narch_name = x86_64\nblock_size = %d\nphys_base = 0\nmax_mapnr = 0x%x\n"
+         "sub_hdr_size = 1\n%snr_cpus = 1\nVMCOREINFO = %s\nDATA = %s\n" % (PAGE, npages, UTS, vmci, data))
+    return {"fmt": "diskdump-pt", "files": [f], "ostype": "linux", "pages": kinds, "npages": npages,
+            "spaces": [2, 2, 2, 0, 1], "vbase": {2: 0xffff880000000000}, "vaddrs": vaddrs,
+            "desc": "diskdump with page tables: %d mapped virtual pages, %d frames" % (len(vaddrs), len(pages))}
+
+
+GENS = {"diskdump": gen_diskdump, "diskdump-pt": gen_diskdump_pt, "elf": gen_elf, "lkcd": gen_lkcd,
+        "sadump": gen_sadump}
 
 
 def gen_dump(rng, work, tag, fmt=None):
-    fmt = fmt or rng.choice(["diskdump", "diskdump", "elf", "elf", "lkcd", "lkcd", "sadump"])
+    fmt = fmt or rng.choice(["diskdump", "diskdump", "diskdump-pt", "diskdump-pt", "elf", "elf", "lkcd", "lkcd", "sadump"])
     d = GENS[fmt](rng, work, tag)
     return d
 
@@ -267,6 +344,8 @@ def gen_history(rng, d, nops):
             span = ms + PAGE
             a = base + rng.choice([0, rng.randrange(span), fs - 1, fs, ms - 1, ms, -1, -PAGE])
             return max(a, 0)
+        if space == 2 and d.get("vaddrs") and rng.random() < 0.8:
+            return rng.choice(d["vaddrs"]) + rng.choice([0, 0, 8, PAGE - 8, PAGE - 1, rng.randrange(PAGE)])
         pfn = rng.randrange(d.get("lo", 0), np_)
         if d["pages"] and rng.random() < 0.6:
             pfn = rng.choice(list(d["pages"]))
